@@ -131,6 +131,11 @@ def broadcast(interp, sa, sb, st, node, what="broadcast"):
             out.append(da if da.known() else db)
     if bad:
         interp.event("shape-conflict", node, st, what=what, a=tuple(sa), b=tuple(sb))
+    elif what in ("add", "sub", "mul", "div") and {la, lb} == {1, 2}:
+        # an (n, 1) column combined with an (n,) vector silently becomes an (n, n) table
+        col, vec = (sa, sb) if la == 2 else (sb, sa)
+        if col[1].is_const() and col[1].c == 1 and not col[0].is_const() and col[0] == vec[0]:
+            interp.event("shape-conflict", node, st, what=f"{what}: an (n, 1) column against an (n,) vector broadcasts to (n, n)", a=tuple(sa), b=tuple(sb))
     return tuple(reversed(out))
 
 
@@ -308,9 +313,9 @@ def _lift3_binop(interp, op, name, a, b, sa, sb, shape, st, node):
 def binop(interp, op, a, b, st, node):
     name = OPNAMES.get(type(op), "binop") if not isinstance(op, str) else op
     if a.kind == "maybe":
-        a = a.items[0]
+        a = a.items[0] if a.items else V("unk", a.term, labels=a.labels, orig=a.orig)
     if b.kind == "maybe":
-        b = b.items[0]
+        b = b.items[0] if b.items else V("unk", b.term, labels=b.labels, orig=b.orig)
     labels = a.labels | b.labels
     if name in ("add", "sub", "mul", "div", "pow", "mod", "floordiv") and (a.kind == "arr" or b.kind == "arr") and hasattr(interp, "vtab"):
         # elementwise operations commute with merging the two leading axes of an operand when the
@@ -784,7 +789,7 @@ def _canon_index(interp, base, idx):
 
 def subscript(interp, base, idx, st, node):
     if base.kind == "maybe":
-        base = base.items[0]
+        base = base.items[0] if base.items else V("unk", base.term, labels=base.labels, orig=base.orig)
     labels = base.labels | idx.labels
     if base.kind in ("tuple", "list") and base.items is not None:
         if idx.has_const and isinstance(idx.const, int):
